@@ -135,6 +135,8 @@ structure State where
   next : Nat              -- number of operations so far = number of the next context
   nseq : Nat              -- number of module instances created so far
   dstor : Nat := 0        -- certmagic.Default.Storage (process-global; 0 = caddy.DefaultStorage)
+  dlogger : Nat := 0      -- whose default log is the process-wide default logger (caddy.Log()):
+                          -- context number + 1; 0 = the logger the process started with
 
 def State.init : State :=
   { raw := none, rawJSON := none, cur := none, socks := [], mpool := fun _ => 0,
@@ -295,10 +297,11 @@ def openLogsFrom (cid : Nat) : Nat → List Mod → State → List Live → List
     | (s', live', wk', none) => openLogsFrom cid (idx + 1) ms s' live' wk'
     | (s', live', wk', some r) => (s', live', wk', some r)
 
-/-- Logging.openLogs: register closeLogs (on a copy), open the default log's stderr writer
-    (key 0), then the custom logs -/
+/-- Logging.openLogs: register closeLogs (on a copy), set up the default log (stderr writer, key 0)
+    and make it the process-wide default logger (setupNewDefault — before anything else of the
+    configuration is provisioned), then the custom logs -/
 def openLogs (cid : Nat) (logs : List Mod) (s : State) : State × List Live × List Nat × Option Res :=
-  openLogsFrom cid 0 logs (openWriter 0 (ev s [.cbReg cid])) [] [0]
+  openLogsFrom cid 0 logs { openWriter 0 (ev s [.cbReg cid]) with dlogger := cid + 1 } [] [0]
 
 /-- Logging.closeLogs: writers.Delete for every key this Logging opened -/
 def closeLogs : List Nat → State → State
